@@ -10,7 +10,7 @@ import json
 import os
 import vlib
 
-PROPS = ['Rangers.Props.C03', 'Rangers.Props.C03Facts']
+PROPS = ['Rangers.Props.C03', 'Rangers.Props.C03Facts', 'Rangers.Props.C03Content']
 DRIVERS = ['C03']
 META = dict(
     level='proof',
